@@ -78,10 +78,15 @@ func (r *getRequest) reply() {
 
 func (r *getRequest) executeHandler() {
 	// Recover from panics inside handlers
+	panicking := true
 	defer func() {
 		v := recover()
 		if v == nil {
-			return
+			if !panicking {
+				return
+			}
+			// With panic(nil), recover returns nil in modules using go < 1.21
+			v = errors.New("panic called with nil argument")
 		}
 
 		var str string
@@ -122,6 +127,7 @@ func (r *getRequest) executeHandler() {
 	h := r.h
 	if h.Get == nil {
 		r.Error(ErrNotFound)
+		panicking = false
 		return
 	}
 	h.Get(r)
@@ -129,4 +135,5 @@ func (r *getRequest) executeHandler() {
 	if !r.replied {
 		r.Error(InternalError(fmt.Errorf("missing response on get request for %#v", r.rname)))
 	}
+	panicking = false
 }
